@@ -2,6 +2,7 @@ package main
 
 import (
 	"go/types"
+	"sort"
 
 	"golang.org/x/tools/go/ssa"
 )
@@ -213,3 +214,75 @@ func derivesFrom(a, d ssa.Value) bool {
 }
 
 var _ types.Type
+
+// metaStruct: the collection catalog record, found by role: the named struct of
+// the root package with a field of type []index.Info.
+func (c *Ctx) metaStruct() *types.Named {
+	sp := c.LibPkgs[c.ModPath]
+	if sp == nil {
+		return nil
+	}
+	var names []string
+	for n := range sp.Members {
+		names = append(names, n)
+	}
+	sort.Strings(names)
+	for _, n := range names {
+		tn, ok := sp.Members[n].(*ssa.Type)
+		if !ok {
+			continue
+		}
+		named, ok := tn.Type().(*types.Named)
+		if !ok {
+			continue
+		}
+		st, ok := named.Underlying().(*types.Struct)
+		if !ok {
+			continue
+		}
+		for i := 0; i < st.NumFields(); i++ {
+			if sl, ok := st.Field(i).Type().Underlying().(*types.Slice); ok && c.libNamedIs(sl.Elem(), "index", "Info") {
+				return named
+			}
+		}
+	}
+	return nil
+}
+
+// isMetaPtr: t is a pointer to the catalog record.
+func (c *Ctx) isMetaPtr(t types.Type) bool {
+	p, ok := t.(*types.Pointer)
+	if !ok {
+		return false
+	}
+	m := c.metaStruct()
+	return m != nil && types.Identical(p.Elem(), m)
+}
+
+// paramSources: the values a parameter receives at the static library call
+// sites of its function (transitively through parameters, to depth 4). A
+// parameter of a function without library callers yields itself.
+func (c *Ctx) paramSources(v ssa.Value, depth int) []ssa.Value {
+	var out []ssa.Value
+	for _, og := range origins(v) {
+		p, ok := og.(*ssa.Parameter)
+		if !ok || depth > 4 {
+			out = append(out, og)
+			continue
+		}
+		fn := p.Parent()
+		pi := paramIndex(fn, p)
+		sites := c.staticCallers(fn)
+		if len(sites) == 0 || pi < 0 || fn.Parent() != nil {
+			out = append(out, og)
+			continue
+		}
+		for _, s := range sites {
+			args := s.Common().Args
+			if pi < len(args) {
+				out = append(out, c.paramSources(args[pi], depth+1)...)
+			}
+		}
+	}
+	return out
+}
